@@ -70,11 +70,14 @@ void AttributesTools::getAttributesMap(
     string arg = argv2[i];
     if (arg == "")
       continue; // Skipping void line.
-    while (arg[arg.size() - 1] == '\\')
+    while (!arg.empty() && arg[arg.size() - 1] == '\\')
     {
       // Splitted line
+      arg = arg.substr(0, arg.length() - 1);
       i++;
-      arg = arg.substr(0, arg.length() - 1) + argv2[i];
+      if (i >= argv2.size())
+        break; // Nothing follows the continuation character.
+      arg += argv2[i];
     }
     // Parsing:
     string::size_type limit = arg.find(delimiter, 0);
